@@ -156,10 +156,10 @@ class Reader:
                 self.meta["fileTimeSecs"] = ftsec
         else:
             if self.nc * self.ns * self.dtype.itemsize != self.nbytes:
+                # only complete sample frames count: an incomplete trailing frame is not exposed
                 ftsec = (
                     self.file_bin.stat().st_size
-                    / self.dtype.itemsize
-                    / self.nc
+                    // (self.dtype.itemsize * self.nc)
                     / self.fs
                 )
                 if self.meta is not None:
